@@ -36,11 +36,8 @@ ASSUMPTIONS = [
     "transfer d_conserved), tied to recCost by SR.C13.C13_loss_count_is_evaluator",
 ]
 OPEN = [
-    "C13_nodes: uniqueness (no second branch for an object node, Nodup of keys) — C13_nodes_partial proves "
-    "existence, species and kind; see def C13_nodes_statement",
-    "C13_losses: the COUNT of FULL_LOSS branches = evaluator's loss count — C13_losses_partial proves the "
-    "location clause; see def C13_losses_statement",
-    "C13_tikz (def C13_tikz_statement) and the later dictionary look-ups (def C13_lookups_statement)",
+    "TikZ text beyond statement kinds (fork statements, tex.measure ordering, names/colours/labels) is not in the C13 "
+    "model (C15 covers the text); it is compared by the tie only",
 ]
 
 KINDS = {
